@@ -56,7 +56,7 @@ func main() {
 	rep.Bounds["series_alphabet"] = seriesAlphabet
 	rep.Bounds["slot_ranges"] = slotRanges
 	rep.Bounds["metric_schemas"] = "1: sum(1) min(2) max(3) last(4) first(5) histogram(6); 2: first(1) histogram(7) histogram(8) max(200); 3: sum(1) min(2); every block carries a per-file subset"
-	rep.Bounds["values"] = "integers 1..23, distinct between files for the same cell; ~20% of the slots of a block empty; ~1/7 of the (series, field) pairs of a multi-field block flushed as FlushField(nil)"
+	rep.Bounds["values"] = "integers 1..23, distinct between files for the same cell, about one cell in 19 holds -Inf; ~20% of the slots of a block empty; ~1/7 of the (series, field) pairs of a multi-field block flushed as FlushField(nil)"
 	rep.Bounds["tier"] = f.Tier
 	roll := f.Part == "roll"
 
